@@ -119,6 +119,12 @@ SHARP = [
     ("terminal-in-long-body", [("S", ("a", "b", "a")), ("S", ("a", "A", "a")), ("A", ("b",)), ("A", ("A", "b"))]),
     ("scc3-chord", [("S", ("a", "A")), ("A", ("a", "B")), ("B", ("a", "S")), ("B", ("b", "A")), ("S", ("a",)), ("A", ("b",))]),
     ("scc3-chord-unary", [("S", ("A",)), ("A", ("B",)), ("B", ("S",)), ("B", ("A",)), ("S", ("a",)), ("B", ("b", "S"))]),
+    ("two-unary-cycles", [("S", ("S",)), ("A", ("A",)), ("S", ("A",)), ("A", ("a",)), ("S", ("b",))]),
+    ("two-unary-sccs-linked", [("S", ("A",)), ("A", ("S",)), ("B", ("C",)), ("C", ("B",)), ("A", ("B",)), ("C", ("a",)), ("S", ("b",))]),
+    ("left-corner-cycle-3", [("S", ("A",)), ("A", ("B", "a")), ("B", ("C", "b")), ("C", ("A", "a")), ("C", ("b",)), ("A", ("a",))]),
+    ("cancel-pqr", [("S", ("P", "b")), ("S", ("Q", "b")), ("S", ("R", "b")), ("P", ("a",)), ("Q", ("a",)), ("R", ("a",))]),
+    ("cancel-3", [("A", ("a",)), ("A", ("a",)), ("A", ("a",)), ("S", ("A", "b")), ("S", ("A", "a"))]),
+    ("cancel-3-unary", [("A", ("B",)), ("A", ("B",)), ("A", ("B",)), ("B", ("a",)), ("S", ("A", "b")), ("S", ("a", "A"))]),
     ("nullable-start-rhs", [("S", ("S", "A")), ("S", ()), ("A", ("a",)), ("A", ())]),
 ]
 
